@@ -392,3 +392,35 @@ class Ctx:
             "violations": nviol,
         }
         (EVID / f"{self.pid}.json").write_text(json.dumps(ev, indent=1, default=str))
+
+
+def run_pool(fn, items, procs=8, initializer=None, on_dead=None, tasks_per_child=12):
+    """fn over items in spawned worker processes, in order.  Workers are recycled and a worker that dies (the kernel's
+    OOM killer under memory pressure) does not hang the run: unfinished items are run again with fewer workers; an item
+    whose worker died three times gets on_dead(item)."""
+    import multiprocessing as mp
+    from concurrent.futures import ProcessPoolExecutor
+    from concurrent.futures.process import BrokenProcessPool
+    results = [None] * len(items)
+    done = [False] * len(items)
+    todo = list(range(len(items)))
+    for attempt in range(3):
+        if not todo:
+            break
+        ex = ProcessPoolExecutor(max_workers=min(procs, max(1, len(todo))), mp_context=mp.get_context("spawn"),
+                                 initializer=initializer, max_tasks_per_child=tasks_per_child)
+        futs = {i: ex.submit(fn, items[i]) for i in todo}
+        try:
+            for i, f in futs.items():
+                try:
+                    results[i] = f.result(timeout=3600)
+                    done[i] = True
+                except BrokenProcessPool:
+                    pass
+        finally:
+            ex.shutdown(wait=False, cancel_futures=True)
+        todo = [i for i in todo if not done[i]]
+        procs = max(2, procs // 2)
+    for i in todo:
+        results[i] = on_dead(items[i]) if on_dead else None
+    return results
